@@ -8,6 +8,9 @@ package main
 //                  ending; stdout + exit status vs OutputModel.interactive (op 703, corr) and
 //                  OutputSpec.session_result (op 704, spec; its operands — current entry, listed entries —
 //                  are read from the implementation through GET before each step)
+//   accept-nth   : (c07fields.go) the -1/-0 path in bulk and pty sessions with any delimiter / field index expressions /
+//                  templates; OutputSpec.accept_text inside session_result evaluated on the implementation's stdout
+//                  (op 705, spec); correspondence with the model (op 703) for AWK-style and literal delimiters
 //   errors       : invalid command lines -> nothing on stdout, exit status 2
 
 import (
@@ -481,6 +484,9 @@ func c07GenFilter(r *RNG) *c07Filter {
 		f.WithNth = Pick(r, c07WithNth)
 	}
 	f.Delim = Pick(r, c07Delims)
+	if r.Chance(1, 4) {
+		f.Delim = Pick(r, c07DelimsRich)
+	}
 	malformed := r.Chance(1, 8)
 	n := Pick(r, []int{0, 1, 1, 2, 3, 4, 5, 6, 8, 12})
 	f.Records = c07GenRecords(r, n, f.Read0, f.Ansi || r.Chance(1, 6), malformed, false)
@@ -617,10 +623,8 @@ func (s *c07Sess) limit() int {
 }
 
 func (s *c07Sess) toptsVal() Val {
-	d := L()
-	if s.Delim != "" {
-		d = L(Bytes(s.Delim))
-	}
+	// the model knows AWK-style and literal delimiters ("\\t" is the tab, as --delimiter reads it)
+	d := c07DelimOf(s.Delim).modelVal()
 	return L(B(s.Ansi), B(s.Print0), B(s.PrintQuery), B(s.Expect), I(s.limit()), s.AcceptNth.Val(), d)
 }
 
@@ -684,12 +688,14 @@ func c07Drive(c *Ctx, cs *c07Sess) (*c07Obs, error) {
 	if cs.Select1 || cs.Exit0 {
 		// the list the finder will start with, from an independent run of the filter (records are distinct here)
 		f := &c07Filter{Records: cs.Records, Read0: cs.Read0, Ansi: cs.Ansi, WithNth: cs.WithNth, Delim: cs.Delim, NoSort: true, Query: cs.Query}
-		oa, sep := f.oracleArgs()
-		oout, _, _ := RunFzf(c, oa, stdin)
 		set := map[string]bool{}
-		if oout != "" {
-			for _, p := range strings.Split(strings.TrimSuffix(oout, sep), sep) {
-				set[p] = true
+		if cs.Query != "" { // the empty query matches every record
+			oa, sep := f.oracleArgs()
+			oout, _, _ := RunFzf(c, oa, stdin)
+			if oout != "" {
+				for _, p := range strings.Split(strings.TrimSuffix(oout, sep), sep) {
+					set[p] = true
+				}
 			}
 		}
 		for i, r := range records {
@@ -916,13 +922,18 @@ func c07SessCheck(c *Ctx, cs *c07Sess) {
 	stripT, rtT := c07Tables(records)
 	rep.Eval(string(key), obs.Started && len(obs.Events) > 0 || !obs.Started)
 	impl := fmt.Sprintf("%q exit %d", obs.Out, obs.Code)
-	// (5b) correspondence
-	mv := c.Model.Call(703, L(B(true), cs.toptsVal(), B(cs.WithNth != ""), B(cs.Select1), B(cs.Exit0), Bytes(cs.Query),
-		Strs(records), Ints(obs.Merger), L(obs.Actions...), stripT, rtT))
-	if len(mv.L) != 3 || mv.L[0].I != 1 {
-		rep.Disagreement(Disagreement{Kind: "corr", Name: "corr:C07.interactive", Input: wrapped, Impl: impl, Expect: "model: " + mv.String()})
-	} else if mo, mc := mv.L[1].Str(), int(mv.L[2].I); mo != obs.Out || mc != obs.Code {
-		rep.Disagreement(Disagreement{Kind: "corr", Name: "corr:C07.interactive", Input: wrapped, Impl: impl, Expect: fmt.Sprintf("%q exit %d", mo, mc)})
+	di := c07DelimOf(cs.Delim)
+	// (5b) correspondence (a regular-expression delimiter is outside the model: spec check only)
+	if di.Kind <= 1 || cs.AcceptNth == nil {
+		mv := c.Model.Call(703, L(B(true), cs.toptsVal(), B(cs.WithNth != ""), B(cs.Select1), B(cs.Exit0), Bytes(cs.Query),
+			Strs(records), Ints(obs.Merger), L(obs.Actions...), stripT, rtT))
+		if len(mv.L) != 3 || mv.L[0].I != 1 {
+			rep.Disagreement(Disagreement{Kind: "corr", Name: "corr:C07.interactive", Input: wrapped, Impl: impl, Expect: "model: " + mv.String()})
+		} else if mo, mc := mv.L[1].Str(), int(mv.L[2].I); mo != obs.Out || mc != obs.Code {
+			rep.Disagreement(Disagreement{Kind: "corr", Name: "corr:C07.interactive", Input: wrapped, Impl: impl, Expect: fmt.Sprintf("%q exit %d", mo, mc)})
+		}
+	} else {
+		rep.Count("session:regex-delimiter(spec only)")
 	}
 	// (5a) spec
 	if field, ok := cs.specField(); ok {
@@ -942,6 +953,33 @@ func c07SessCheck(c *Ctx, cs *c07Sess) {
 				rep.Disagreement(Disagreement{Kind: "spec", Name: "exit_code_table", Input: wrapped, Impl: impl, Expect: fmt.Sprintf("exit %d", sc)})
 			}
 		}
+	}
+	// (5a) spec, --accept-nth in general: "prints exactly the selected fields" (OutputSpec.accept_text) for every field
+	// index expression list and template, AWK-style, literal and '[set]' / '[set]+' delimiters
+	if cs.AcceptNth != nil && di.Kind <= 2 {
+		sv := c.Model.Call(705, L(B(cs.Print0), B(cs.PrintQuery), B(cs.Expect), B(cs.Ansi), Strs(records), stripT, I(cs.limit()),
+			L(obs.Events...), I(obs.Current), I(obs.Ending), Bytes(obs.Query), Bytes(obs.Key), di.specVal(), cs.AcceptNth.Val()))
+		rep.mu.Lock()
+		rep.SpecChecks++
+		rep.mu.Unlock()
+		if len(sv.L) != 2 {
+			rep.Disagreement(Disagreement{Kind: "spec", Name: "accept_nth_fields", Input: wrapped, Impl: impl, Expect: sv.String()})
+		} else {
+			so, sc := sv.L[0].Str(), int(sv.L[1].I)
+			if so != obs.Out {
+				rep.Disagreement(Disagreement{Kind: "spec", Name: "accept_nth_fields", Input: wrapped, Impl: impl,
+					Expect: fmt.Sprintf("%q (the selected fields exactly, less one final delimiter and the white space at the end)", so)})
+			}
+			if sc != obs.Code {
+				rep.Disagreement(Disagreement{Kind: "spec", Name: "exit_code_table", Input: wrapped, Impl: impl, Expect: fmt.Sprintf("exit %d", sc)})
+			}
+		}
+		rep.Count(fmt.Sprintf("session:accept-nth-spec:delim-kind=%d", di.Kind))
+		if cs.AcceptNth.Parts != nil {
+			rep.Count("session:accept-nth-spec:template")
+		}
+	} else if cs.AcceptNth != nil {
+		rep.Count("session:accept-nth-spec:delimiter-not-covered")
 	}
 	rep.Sample(wrapped)
 	if obs.Started {
@@ -1042,6 +1080,28 @@ func c07GenSess(r *RNG) *c07Sess {
 	if cs.Final == "" {
 		cs.Final = Pick(r, []string{"accept", "accept", "accept", "enter", "accept-non-empty", "accept-or-print-query", "print-query", "abort", "expect"})
 	}
+	if r.Chance(1, 3) {
+		// the field region: any delimiter, any field index expression list / template, records built around the delimiter
+		fr := r.Fork()
+		if !fr.Chance(1, 6) {
+			cs.Delim = Pick(fr, c07DelimsRich)
+		}
+		d := c07DelimOf(cs.Delim)
+		cs.AcceptNth = c07GenNth(fr, d)
+		recs := c07GenDelimRecords(fr, len(cs.Records), d, cs.Read0, cs.Ansi, early)
+		if early {
+			seen := map[string]bool{}
+			for i, b := range recs {
+				sh := c07Shown(string(b), cs.Ansi, cs.WithNth != "")
+				if seen[sh] {
+					recs[i] = bstr(string(b) + "u" + strconv.Itoa(i))
+					sh = c07Shown(string(recs[i]), cs.Ansi, cs.WithNth != "")
+				}
+				seen[sh] = true
+			}
+		}
+		cs.Records = recs
+	}
 	if cs.Final == "expect" && !cs.Expect {
 		cs.Expect = true
 	}
@@ -1105,7 +1165,7 @@ func c07Load(path string) *c07Case {
 }
 
 func runC07(c *Ctx) {
-	c.Rep.Rule = "filter: `fzf --filter` process runs over random record lists (blanks, empty, multi-line NUL records, non-ASCII, ANSI, invalid UTF-8) x --with-nth/--delimiter/--ansi/--read0/--print0/--print-query/+s/--tac/--sync; non-trivial = at least two records and one printed. session: pty + --listen runs with random selection histories and every ending; non-trivial = at least one selection/print event (or an immediate -1/-0 exit). distinct by JSON of the case"
+	c.Rep.Rule = "filter: `fzf --filter` process runs over random record lists (blanks, empty, multi-line NUL records, non-ASCII, ANSI, invalid UTF-8) x --with-nth/--delimiter/--ansi/--read0/--print0/--print-query/+s/--tac/--sync; non-trivial = at least two records and one printed. session: pty + --listen runs with random selection histories and every ending; non-trivial = at least one selection/print event (or an immediate -1/-0 exit). accept: the -1/-0 path (no terminal) with --accept-nth over AWK-style, literal (one and several bytes, overlapping) and '[set]'/'[set]+' delimiters, random field index expression lists and templates, records built around the delimiter (empty fields, consecutive/trailing delimiters, delimiter fragments, blanks around delimiters); the same shapes in a third of the pty sessions and in bulk sessions (select-all/toggle-all over 8-20 records, then accept); spec = OutputSpec.accept_text on the implementation's stdout (op 705). distinct by JSON of the case"
 	if c.Replay != "" {
 		if cs := c07Load(c.Replay); cs != nil {
 			c07RunCase(c, cs)
@@ -1127,11 +1187,24 @@ func runC07(c *Ctx) {
 		filters[i] = c07GenFilter(c.Rng.Fork())
 	}
 	parallel(c, nf, func(i int, _ *RNG) { c07FilterCheck(c, filters[i]) })
-	ns := c.N(240, 4000)
-	sess := make([]*c07Sess, ns)
-	for i := range sess {
-		sess[i] = c07GenSess(c.Rng.Fork())
+	// the -1 / -0 accept path with --accept-nth (no terminal needed)
+	na := c.N(1500, 40000)
+	accepts := make([]*c07Sess, na)
+	for i := range accepts {
+		accepts[i] = c07GenAccept(c.Rng.Fork())
 	}
+	parallel(c, na, func(i int, _ *RNG) { c07SessCheck(c, accepts[i]) })
+	ns := c.N(240, 4000)
+	nb := c.N(40, 800)
+	sess := make([]*c07Sess, ns+nb)
+	for i := range sess {
+		if i < ns {
+			sess[i] = c07GenSess(c.Rng.Fork())
+		} else {
+			sess[i] = c07GenBulkSess(c.Rng.Fork())
+		}
+	}
+	ns += nb
 	// sessions: 10 at a time
 	ch := make(chan int)
 	done := make(chan bool)
